@@ -116,6 +116,10 @@ def mutate(rng, s):
             toks[i] = rng.choice(PUNCT + FUNCS + ["0", "1e3", "kg", " "])
     return "".join(toks)
 
+ZEROISH = ["0", "0.0", "-0", "0%", "0 m", "0 K", "0 kg*m/s^2", "-273.15 °C", "-273.15°C", "-459.67 °F", "-459.67°F", "-273.15 celsius",
+           "(0 K to °C)", "(0K to °F)", "(0 °C - 273.15)", "(1 - 1)", "(2 m - 200 cm)", "(1 km - 1000 m)", "0 ^ 1", "(0 m) ^ 2", "32 °F", "-40 °C",
+           "273.15 K", "1", "-1", "1 m", "(5 s / 5 s)", "1e-30", "1e30", "0e5", ".0"]
+
 def gen_structured(rng, vocab):
     """Mostly well-formed queries so that the evaluator (not only the error paths of the parser) is exercised."""
     from core import exact
@@ -130,6 +134,9 @@ def gen_structured(rng, vocab):
         return "%s %s" % (num(), u)
     def atom():
         r = rng.random()
+        if r < 0.08:
+            # boundary dictionary: quantities that are (or become after unit conversion) zero, one or a scale's fixed point
+            return rng.choice(ZEROISH)
         if r < 0.25:
             return num()
         if r < 0.55:
@@ -145,7 +152,7 @@ def gen_structured(rng, vocab):
         return "(" + atom() + " " + rng.choice(["+", "-", "*", "/"]) + " " + atom() + ")"
     parts = [atom()]
     for _ in range(rng.randint(0, 4)):
-        op = rng.choice(["+", "-", "*", "/", "^", "to", "*", "/"])
+        op = rng.choice(["+", "-", "*", "/", "^", "to", "*", "/", "/"])
         if op == "^":
             parts += ["^", str(rng.randint(-9, 9))]
         elif op == "to":
